@@ -302,3 +302,17 @@ func ContainsAny(b []byte, ss []string) bool {
 	}
 	return false
 }
+
+// AddDecoys sprinkles files that gopatch has no business touching into the
+// project tree: editor backups, leftovers that look like temporary files of
+// an interrupted run, lock files, non-Go sources. Any mutation of them shows
+// up in the filesystem digest.
+func AddDecoys(c *Case, r *world.PRNG) {
+	names := []string{".a.go.123456.tmp", "notes.txt", "main.go~", "main.go.orig", ".#lock.go.swp", "x.go.bak", "go.mod", ".mt0.go.99.tmp", "Makefile", "gen.go.tmpl"}
+	n := r.Intn(3)
+	for i := 0; i < n; i++ {
+		nm := names[r.Intn(len(names))]
+		dir := r.Pick([]string{"", "", "pkg/", "internal/x/"})
+		c.SetNode(world.NodeSpec{Path: ProjDir + "/" + dir + nm, Kind: "file", Data: []byte("decoy " + nm + "\nvfOld1(1)\n")})
+	}
+}
